@@ -41,7 +41,10 @@ Post(pos) == CASE pos = "macro" -> <<62, 93>> [] pos = "concat" -> <<122, 93>> [
 InText(pos, v) == IF pos \in {"afterfilter"} /\ TextOf(v) = <<>> THEN <<100>> ELSE TextOf(v)
 WholeIsD(pos, v) == pos = "beforefilter" /\ TextOf(v) = <<>>
 
-Values == {VS(s) : s \in Strs(MaxLen) \cup Seeds} \cup {VI(5), VI(-3), Null}
+\* non-string values whose text form holds markup
+Markup == {<<60, 98, 62>>, <<39, 120>>, <<97, 38, 98>>, <<34>>}
+GoValues == {VGo(k, m) : k \in {"bytes", "named", "stringer", "err"}, m \in Markup}
+Values == {VS(s) : s \in Strs(MaxLen) \cup Seeds} \cup {VI(5), VI(-3), Null} \cup GoValues
 PrintOnly == {VS(s) : s \in Strs(MaxLenPrint) \ Strs(MaxLen)}
 Cases == {[pos |-> p, v |-> v] : p \in Positions, v \in Values} \cup {[pos |-> "print", v |-> v] : v \in PrintOnly}
 
